@@ -239,8 +239,8 @@ func familyPart(role string, seq []fclass, fam string, seed int64, thorough bool
 			nCases := -1
 			outcomes := map[string]int{}
 			for ci := part; nCases < 0 || ci < nCases; ci += parts {
-				if c.NumFailures() >= 3 {
-					break // (a broken tree: the first failing cases of this part are the report)
+				if c.NumFailures() >= 1 {
+					break // (a broken tree: the first failing case of this part is the report: the execution is run again five times)
 				}
 				if c.Expired() {
 					c.Incomplete(fmt.Sprintf("%s: budget expired at case %d of %d", scenName, ci, nCases))
@@ -612,9 +612,11 @@ func main() {
 				emit(spliceEarlierSession(cfg.Seed))
 			}
 			for _, sq := range seqsBits {
-				if cfg.Thorough() && len(sq) == 1 && sq[0].pay+sq[0].pad > 300 {
+				if len(sq) == 1 && sq[0].pay+sq[0].pad > 30 {
+					// (in eight parts: an execution is a whole part, and a failing
+					// execution is run again five times)
 					for k := 0; k < 8; k++ {
-						emit(familyPart(role, sq, "bitflip", cfg.Seed, true, k, 8))
+						emit(familyPart(role, sq, "bitflip", cfg.Seed, cfg.Thorough(), k, 8))
 					}
 				} else {
 					emit(family(role, sq, "bitflip", cfg.Seed, cfg.Thorough()))
